@@ -147,6 +147,23 @@ static FWire c09(Reader& r) {
         }
         return FWire{o,{}};
     }
+    if (op==15) {
+        // history: a first labelled file, then a second one, loaded into the SAME Sensors object; result of the second load
+        Sensors s;
+        for (int pass=0;pass<2;++pass) {
+            size_t n=r.n(); std::vector<size_t> ls; std::vector<ll> ws;
+            for (size_t k=0;k<n;++k) ls.push_back(r.n());
+            for (size_t k=0;k<n;++k) ws.push_back(r.z());
+            std::ostringstream txt;
+            for (size_t k=0;k<n;++k) txt << "s" << ls[k] << " " << k << ".5 0.25 1.5 0.0 0.0 1.0 " << ws[k] << ".0\n";
+            std::istringstream in(txt.str());
+            s.load(in);
+        }
+        SparseMatrix W=s.getWeightsMatrix();
+        Wire o{ST_OK,(ll)s.getNumberOfSensors()};
+        for (size_t i=0;i<W.nlin();++i) for (size_t j=0;j<W.ncol();++j) { const SparseMatrix& C=W; o.push_back(exact(C(i,j))); }
+        return FWire{o,{}};
+    }
     if (op==5) {
         size_t n=r.n(); std::vector<size_t> ls; std::vector<ll> ws;
         for (size_t k=0;k<n;++k) ls.push_back(r.n());
